@@ -9,3 +9,8 @@ def tst_antisymmetric(a: TST, b: TST) -> bool:
 def tst_trichotomy_like(a: TST, b: TST) -> int:
     """number of relations among a>b, a==b, a<b that hold"""
     return (1 if a > b else 0) + (1 if a == b else 0) + (1 if a < b else 0)
+
+
+def reported_remaining_lifetime(lt_ms_value: int) -> float:
+    """what every indication reports as remaining packet lifetime (seconds) for a header lifetime of lt_ms_value ms"""
+    return float(lt_ms_value // 1000)
